@@ -30,10 +30,10 @@ import ast
 import itertools
 from typing import Dict, List, Optional, Tuple
 
-from ..model import Repo, FuncInfo, AnalysisError, norm, const_str
+from ..model import Repo, FuncInfo, AnalysisError, norm, const_str, enclosing_stmt
 from ..report import Ctx, RuleResult
 from ..poly import Poly
-from ..exprs import str_template
+from ..exprs import str_template, path_conditions
 
 LG = 'lark.load_grammar:'
 E2B = LG + 'EBNF_to_BNF.'
@@ -991,6 +991,28 @@ def run(ctx: Ctx) -> RuleResult:
         guarded(f, 'cache-key:%s' % f.node.name, 'the cache key names everything the helper tree depends on; lookup and store use the same key',
                 lambda f=f: chk_key(f))
 
+    def chk_partition():
+        """what _add_rule files depends on self.rule_options (keep_all_tokens decides which anonymous terminals of the helper are filtered), and
+        the transformer is reused for every rule of the grammar: the helper cache has to be partitioned by that setting (or keyed by it)"""
+        k_ = repo.cls(LG + 'EBNF_to_BNF')
+        reads_opts = any(isinstance(x, ast.Attribute) and x.attr == 'rule_options' for x in ar.body_nodes())
+        if not reads_opts:
+            return None
+        prop_ = k_.methods.get('rules_cache')
+        if prop_ is not None and any(isinstance(x, ast.Attribute) and x.attr == 'rule_options' for x in prop_.body_nodes()):
+            return None
+        keys_ = [key_of(f_) for f_ in (rr, ro, repo.func(E2B + '_add_recurse_rule'))]
+        if all(k is not None and any(isinstance(x, ast.Attribute) and x.attr == 'rule_options' for x in ast.walk(k)) for k in keys_):
+            return None
+        gc_ = repo.func(LG + 'Grammar.compile')
+        resets = [a for a in gc_.body_nodes() if isinstance(a, ast.Assign) and any(norm(t).endswith('.rules_cache') for t in a.targets)]
+        if resets and any(isinstance(l, ast.For) and any(a is x for a in resets for x in ast.walk(l)) for l in gc_.body_nodes()):
+            return None
+        return ('helper rules are cached under keys that do not mention self.rule_options, in one cache for the whole grammar, while what is filed under them '
+                'depends on it: `!a: "x"+ "y"` and `b: "x"+ "z"` share the helper made for whichever comes first, so b keeps its "x" tokens or a loses them')
+    guarded(ar, 'cache-key:options-partition', 'helper rules are shared only between rules with the same keep_all_tokens setting', chk_partition,
+            props=['C03', 'C09'])
+
     def chk_collide():
         k1, k2 = key_of(rr), key_of(ro)
         if not (isinstance(k1, ast.Tuple) and isinstance(k2, ast.Tuple)):
@@ -1039,6 +1061,70 @@ def run(ctx: Ctx) -> RuleResult:
             raise CountViolation('small_factors has no return without recursion', sf.node)
         return None
     guarded(sf, 'small-factors:fold', 'small_factors(n, _) returns factors whose fold x -> x*a + b from 1 is n; the recursion is on n // a, a >= 2', chk_sf)
+
+    def chk_sf_pre():
+        # preconditions on n admit what _generate_repeats passes: mn (>= 0: `x~0..m` is legal) and mx - mn + 1 (>= 1)
+        from ..exprs import as_less, linear
+        pn0 = sf.positional_names()[0]
+        for st_ in sf.node.body:
+            tests_ = []
+            if isinstance(st_, ast.Assert):
+                tests_ = [(st_.test, True)]
+            elif isinstance(st_, ast.If) and not st_.orelse and st_.body and isinstance(st_.body[-1], ast.Raise):
+                tests_ = [(st_.test, False)]
+            for t_, pol_ in tests_:
+                parts_ = t_.values if isinstance(t_, ast.BoolOp) and isinstance(t_.op, ast.And if pol_ else ast.Or) else [t_]
+                for c_ in parts_:
+                    al = as_less(c_)
+                    if al is None:
+                        continue
+                    lo_, op_, hi_ = al
+                    for n0 in (0, 1):
+                        l_ = linear(lo_, {pn0: {'': n0} if n0 else {}})
+                        h_ = linear(hi_, {pn0: {'': n0} if n0 else {}})
+                        if not (set(l_) <= {''} and set(h_) <= {''}) or pn0 not in {y.id for y in ast.walk(c_) if isinstance(y, ast.Name)}:
+                            continue
+                        holds = l_.get('', 0) < h_.get('', 0) if op_ == '<' else l_.get('', 0) <= h_.get('', 0)
+                        if holds != pol_:
+                            raise CountViolation('small_factors refuses %s = %d (%s): _generate_repeats factors the lower bound of `x~mn..mx` and '
+                                                 'mx - mn + 1, so `x~%s` with a large upper bound cannot be compiled' % (pn0, n0, norm(c_), '0..m' if n0 == 0 else 'n..n'), st_)
+        return None
+    guarded(sf, 'small-factors:precondition', 'small_factors accepts n = 0 and n = 1 (the least lower bound and the least width of a range)', chk_sf_pre)
+
+    # ---- identical alternatives produced by multiplying out ? and ~n..m are merged before the grammar is compiled ---------------------------
+    sv = repo.func('lark.load_grammar:SimplifyRule_Visitor.expansions')
+
+    def chk_dedup():
+        from ..exprs import as_less, sym_norm
+        calls_ = [c_ for c_ in sv.body_nodes() if isinstance(c_, ast.Call) and norm(c_.func).split('.')[-1] in ('dedup_list', 'fromkeys')]
+        if not calls_:
+            raise AnalysisError('R-REPEAT-COUNT: SimplifyRule_Visitor.expansions: cannot find where identical alternatives are merged')
+        tparam = sv.positional_names()[-1]
+        for c_ in calls_:
+            st_ = enclosing_stmt(c_)
+            if not (isinstance(st_, ast.Assign) and norm(st_.targets[0]) in ('%s.children' % tparam, '%s.children[:]' % tparam)):
+                raise CountViolation('the merged list of alternatives is not stored back into %s.children' % tparam, st_)
+            arg_ = norm(c_.args[0]) if c_.args else ''
+            if arg_ != '%s.children' % tparam:
+                raise AnalysisError('R-REPEAT-COUNT: SimplifyRule_Visitor.expansions merges %s, not %s.children' % (arg_, tparam))
+            for t_, pol_ in path_conditions(st_):
+                ok_ = False
+                al = as_less(t_)
+                sset, slist = 'len(set(%s))' % arg_, 'len(%s)' % arg_
+                if isinstance(t_, ast.Compare) and len(t_.ops) == 1 and isinstance(t_.ops[0], (ast.NotEq, ast.Eq)):
+                    pair = {norm(t_.left), norm(t_.comparators[0])}
+                    ok_ = pair == {sset, slist} and (isinstance(t_.ops[0], ast.NotEq) == pol_)
+                elif al is not None:
+                    lo_, op_, hi_ = al
+                    # len(set(x)) < len(x) when taken; len(x) <= len(set(x)) when not taken
+                    ok_ = (pol_ and op_ == '<' and norm(lo_) == sset and norm(hi_) == slist) or \
+                          (not pol_ and op_ == '<=' and norm(lo_) == slist and norm(hi_) == sset)
+                if not ok_:
+                    raise CountViolation('identical alternatives are merged only when `%s` is %s, which is not "there is a duplicate" '
+                                         '(len(set(x)) != len(x)): `x? x?` or `x~1..2 x~1..2` multiply out to the same alternative twice, and '
+                                         'Grammar.compile refuses the grammar ("Rules defined twice")' % (norm(t_), pol_), st_)
+        return None
+    guarded(sv, 'alternatives:dedup', 'the alternatives of a rule are de-duplicated whenever two are equal', chk_dedup)
 
     # ---- _generate_repeats -----------------------------------------------------------------------------------------------
     gr = repo.func(E2B + '_generate_repeats')
